@@ -19,7 +19,7 @@ MODS = (B, MC, MF, MG, MI)
 
 @contextlib.contextmanager
 def shimmed(**extra):
-    sh = NPShim(havoc_empty=False)
+    sh = NPShim(havoc_empty=False, force_obj=True)
     with contextlib.ExitStack() as st:
         for m in MODS:
             st.enter_context(patched(m, np=sh))
@@ -57,6 +57,7 @@ def trace(fam, method, rows, assume=(), theta=None, max_paths=64):
     def fn(ctx):
         ctx.assume(*dom(th.t))
         ctx.assume(*assume)
+        ctx.notes['n_assume'] = len(ctx.pc)
         c = mk(cls, th)
         if method == 'generator':
             r = c.generator(objarr([r[0] for r in rows]))
@@ -71,10 +72,28 @@ def trace(fam, method, rows, assume=(), theta=None, max_paths=64):
     return paths, exhaustive
 
 
+class TraceError(Exception):
+    pass
+
+
 def single(fam, method, u, v, assume=()):
-    """the unique-path term of method at one symbolic interior point"""
+    """the term of `method` at one symbolic point: all feasible paths merged into one
+    if-then-else term over their path conditions (an exception on any path is an error)."""
+    from symx.core import tz
     paths, ex = trace(fam, method, [(u, v)], assume)
-    ok = [p for p in paths if p.status == 'ok']
-    if len(ok) != 1 or len(paths) != 1 or not ex:
-        raise RuntimeError(f'{fam}.{method}: expected one path, got {[(p.status, repr(p.exc)) for p in paths]}')
-    return ok[0].value[0], ok[0].ctx
+    bad = [p for p in paths if p.status != 'ok']
+    if bad or not paths or not ex:
+        raise TraceError(f'{fam}.{method}: ' + '; '.join(f'{p.status} {p.exc!r}' for p in bad[:2]) + ('' if ex else ' (path limit)'))
+    if len(paths) == 1:
+        return paths[0].value[0], paths[0].ctx
+    term = None
+    for p in reversed(paths):
+        v_ = p.value[0]
+        if not isinstance(v_, SymReal):
+            if isinstance(v_, float) and v_ != v_ or v_ in (float('inf'), float('-inf')):
+                raise TraceError(f'{fam}.{method}: special value {v_} on a path')
+        t = tz(v_)
+        n0 = p.ctx.notes.get('n_assume', 0)
+        cond = z3.And(*p.ctx.pc[n0:]) if len(p.ctx.pc) > n0 else z3.BoolVal(True)
+        term = t if term is None else z3.If(cond, t, term)
+    return SymReal(term), paths[0].ctx
